@@ -188,8 +188,17 @@ Definition judge (c o : sexp) : verdict :=
   match get_string "hang" o with
   | Some _ => VOracle "Consensus did not return within 8 s"
   | None =>
-    match (x <- get "trees" c ;; dec_list dec_utree x), get_Q "cutoff" c with
-    | Some ts, Some cutoff => judge_main ts cutoff o
+    (* pre-used inputs: the worker indexed the trees, edited them without re-indexing and dumped
+       them ([treesafter]); model and oracle work on the trees as Consensus received them *)
+    match (match get "treesafter" o with
+           | Some x => dec_list dec_utree x
+           | None => x <- get "trees" c ;; dec_list dec_utree x
+           end), get_Q "cutoff" c with
+    | Some ts, Some cutoff =>
+      match judge_main ts cutoff o, get "pres" c with
+      | VOk nt tg, Some _ => VOk nt (tg ++ ":preused")
+      | v, _ => v
+      end
     | _, _ => VBad "undecodable case"
     end
   end.
